@@ -71,6 +71,7 @@ type Term struct {
 
 // Ctx owns the hash-cons table.
 type Ctx struct {
+	varsMemo map[*Term][]int
 	tab   map[string]*Term
 	n     int
 	Vars  []*Term
@@ -829,3 +830,53 @@ func Eval(t *Term, env map[string]uint64, memo map[*Term]uint64) uint64 {
 }
 
 var _ = bits.Len
+
+// VarsOf returns the sorted IDs of the variables occurring in t.
+func (c *Ctx) VarsOf(t *Term) []int {
+	if c.varsMemo == nil {
+		c.varsMemo = map[*Term][]int{}
+	}
+	if v, ok := c.varsMemo[t]; ok {
+		return v
+	}
+	var out []int
+	switch t.Op {
+	case OConst:
+	case OVar:
+		out = []int{t.ID}
+	default:
+		for _, a := range t.Args {
+			out = mergeSorted(out, c.VarsOf(a))
+		}
+	}
+	c.varsMemo[t] = out
+	return out
+}
+
+func mergeSorted(a, b []int) []int {
+	if len(a) == 0 {
+		return b
+	}
+	if len(b) == 0 {
+		return a
+	}
+	out := make([]int, 0, len(a)+len(b))
+	i, j := 0, 0
+	for i < len(a) && j < len(b) {
+		switch {
+		case a[i] < b[j]:
+			out = append(out, a[i])
+			i++
+		case a[i] > b[j]:
+			out = append(out, b[j])
+			j++
+		default:
+			out = append(out, a[i])
+			i++
+			j++
+		}
+	}
+	out = append(out, a[i:]...)
+	out = append(out, b[j:]...)
+	return out
+}
